@@ -762,6 +762,44 @@ fn big_file_region_data_patterns() {
     out::count("big_file_region_writes", step as i128);
 }
 
+#[cfg(not(miri))]
+fn forked_child_reads_back<M: GuestMemory>(mem: &M, flat: &Flat, backend: &str) {
+    use crate::common::fork::{self, Exit};
+    let ex = fork::run(20, || {
+        let mut report = String::new();
+        for (i, (s, l)) in flat.lay.regions.iter().enumerate() {
+            let (s, l) = (*s as u64, *l as usize);
+            let want = &flat.bytes[i];
+            let mut got = vec![0u8; l];
+            // (regions may touch: a plain read may run on into the next one - only `l` bytes are asked for)
+            let route_read = mem.read(&mut got, GuestAddress(s)).map(|n| n == l && got == *want).unwrap_or(false);
+            let mut sink: Vec<u8> = vec![];
+            let route_stream = mem.write_all_volatile_to(GuestAddress(s), &mut sink, l).is_ok() && sink == *want;
+            let route_obj = mem.read_obj::<u8>(GuestAddress(s + l as u64 - 1)).map(|b| b == want[l - 1]).unwrap_or(false);
+            let route_slice = mem.get_slice(GuestAddress(s), l.min(64)).map(|vs| {
+                let mut b = vec![0u8; vs.len()];
+                vs.copy_to(&mut b[..]);
+                b == want[..l.min(64)]
+            }).unwrap_or(false);
+            if !(route_read && route_stream && route_obj && route_slice) {
+                report = format!("region {} (start {:#x}, {} bytes): read={} write_all_volatile_to={} read_obj(last byte)={} get_slice.copy_to={}", i, s, l, route_read, route_stream, route_obj, route_slice);
+                break;
+            }
+        }
+        report.into_bytes()
+    });
+    match ex {
+        Exit::Ok(rep) if rep.is_empty() => {
+            out::key(&format!("fork|child-reads-back|{}|{}regions", backend, flat.lay.regions.len().min(3)), true);
+            out::count("forked_children_that_read_back", 1);
+        }
+        Exit::Ok(rep) => v(backend, "fork/child-does-not-read-back-what-was-written-before-the-fork", flat, J::s(String::from_utf8_lossy(&rep).to_string())),
+        Exit::Signal(sig) => v(backend, "fork/child-crashed-reading-inherited-guest-memory", flat, jobj! {"signal" => fork::signal_name(sig)}),
+        Exit::Panic(p) => v(backend, "fork/child-panicked-reading-inherited-guest-memory", flat, J::s(p)),
+        other => out::note("C03/fork-child-inconclusive", J::dbg(&other)),
+    }
+}
+
 pub fn run(args: &Args) {
     out::set_quiet_cases(true);
     #[cfg(not(feature = "xen"))]
@@ -792,6 +830,12 @@ pub fn run(args: &Args) {
                 let mut h = H { backend: be, flat, raws: &raws, trace: vec![], bad: false };
                 h.frame("initial");
                 history(&gm, &mut h, &mut r, nops);
+                // the memory object is an ordinary value: a child created by fork() holds it too and
+                // must read back, through every route, what was written before the fork
+                #[cfg(not(miri))]
+                if !h.bad && case % 16 == 3 {
+                    forked_child_reads_back(&gm, &h.flat, be);
+                }
                 if out::want_sample() {
                     out::sample(jobj! {"backend" => be, "layout" => J::A(lay.regions.iter().map(|(s, l)| J::S(format!("{:#x}+{:#x}", s, l))).collect()), "first_ops" => h.trace.iter().take(8).cloned().collect::<Vec<String>>()});
                 }
